@@ -41,7 +41,11 @@ def obj_fn(program):
             else:
                 vals = ref.indicator_values(view, d)
             return None if vals is None else min(vals)
-        return kind, fn, d["args"].get("weight", 1)
+        w = d["args"].get("weight", 1)
+        for d2 in program["decls"]:
+            if d2["k"] == "set" and d2["obj"] == d.get("id") and d2["attr"] == "weight":
+                w = d2["value"]  # assigned after construction: the weight at solve time counts
+        return kind, fn, w
 
     parts = [one(d) for d in objs]
     kind = parts[0][0]
